@@ -8,7 +8,11 @@
        brace / parenthesis (was: the closer was copied to the output);
      - a backslash or a % that is the last character of the input is copied as it stands
        (was: the terminator was stepped over);
-     - %name( whose argument text is never closed returns NULL before Command[-1] is written.
+     - %name( whose argument text is never closed returns NULL before Command[-1] is written;
+     - (not visible in the model: an unterminated backquote no longer steps over the terminator -
+       the model stops with an event at the backquote; EnvVar, the unused name copy of a repeated
+       %put and the Command block of a failed nested expansion are released - the model does not
+       track allocation, the harness counts blocks).
 
    Conventions.  `pbuff` is the list of cells from the cursor to the end of the object that
    holds the input, so `*pbuff` is `rdn p 0`, `pbuff++` is `tl p`, and any read beyond the
